@@ -70,7 +70,8 @@ func (c *picCtx) picBytes(img map[string]interface{}) []byte {
 	h := fnv.New32a()
 	h.Write([]byte(t))
 	tok := int(h.Sum32()%200) + 1
-	key := fmt.Sprintf("%s/%s/%d/%d", t, f, pw, ph)
+	ln := picInt(img, "len")
+	key := fmt.Sprintf("%s/%s/%d/%d/%d", t, f, pw, ph, ln)
 	b, cached := picBytesCache[key]
 	if !cached {
 		enc := func(k int) []byte {
@@ -96,6 +97,13 @@ func (c *picCtx) picBytes(img map[string]interface{}) []byte {
 			}
 			if !found {
 				fmt.Fprintf(os.Stderr, "pics: no twin of equal length for %s\n", t)
+				os.Exit(2)
+			}
+		}
+		if ln > 0 {
+			b = picPad(b, f, ln, tok)
+			if len(b) != ln {
+				fmt.Fprintf(os.Stderr, "pics: cannot give image %s the length %d (got %d)\n", t, ln, len(b))
 				os.Exit(2)
 			}
 		}
@@ -270,8 +278,11 @@ func (c *picCtx) step(op Op, i int) (ret string, inforel string) {
 	switch op.Name() {
 	case "AddImage":
 		img, sz := picMap(op["img"]), picMap(op["sz"])
-		b := c.picBytes(img)
 		cfg := picConfig(sz, op.Str("pos"), i)
+		if slot := op.Str("path"); slot != "" { // one of the caller's files, as it is now
+			return keepInfo(d.AddImageFromFile(c.slotPath(slot, i), cfg)), inforel
+		}
+		b := c.picBytes(img)
 		if op.Str("via") == "file" {
 			return keepInfo(d.AddImageFromFile(c.picFile(op.Str("name"), i, b), cfg)), inforel
 		}
@@ -286,7 +297,11 @@ func (c *picCtx) step(op Op, i int) (ret string, inforel string) {
 		}
 	case "AddCellImage":
 		img, sz := picMap(op["img"]), picMap(op["sz"])
-		b := c.picBytes(img)
+		slot := op.Str("path")
+		var b []byte
+		if slot == "" {
+			b = c.picBytes(img)
+		}
 		t := c.table(op.Int("tbl"))
 		r, col := op.Int("r"), op.Int("c")
 		w := float64(picInt(sz, "w")) / 100
@@ -294,13 +309,18 @@ func (c *picCtx) step(op Op, i int) (ret string, inforel string) {
 		case "data":
 			return keepInfo(d.AddCellImageFromData(t, r, col, b, w)), inforel
 		case "file":
+			if slot != "" {
+				return keepInfo(d.AddCellImageFromFile(t, r, col, c.slotPath(slot, i), w)), inforel
+			}
 			return keepInfo(d.AddCellImageFromFile(t, r, col, c.picFile("jpg", i, b), w)), inforel
 		}
 		cc := &document.CellImageConfig{Width: w, Height: float64(picInt(sz, "h")) / 100, KeepAspectRatio: picBool(sz, "keep")}
 		if i%2 == 0 {
 			cc.AltText, cc.Title = "cell alt", "cell title"
 		}
-		if op.Str("via") == "cfg-file" {
+		if op.Str("via") == "cfg-file" && slot != "" {
+			cc.FilePath = c.slotPath(slot, i)
+		} else if op.Str("via") == "cfg-file" {
 			cc.FilePath = c.picFile("cjk", i, b)
 		} else {
 			cc.Data = b
@@ -317,6 +337,12 @@ func (c *picCtx) step(op Op, i int) (ret string, inforel string) {
 			}
 		}
 		return keepInfo(d.AddCellImage(t, r, col, cc)), inforel
+	case "WriteFile":
+		return c.slotWrite(op.Str("path"), c.picBytes(picMap(op["img"])), i), ""
+	case "RemoveFile":
+		if err := os.Remove(c.slotFile(op.Str("path"))); err != nil {
+			return "err", ""
+		}
 	case "AddPlaceholder":
 		d.AddParagraph(picPlaceholder(op.Int("slot"), op.Str("lay")))
 	case "AddCellPlaceholder":
